@@ -23,6 +23,9 @@ ASSUMPTIONS = [
     'look-ahead may be any constant: judged is L(N2) <= L(N1) + 2*steps and L(N2) < N2/4, for the maximum over '
     'all deliveries and over deliveries of rows with ordinal >= 200 separately',
     'in multi-source pipelines source j+1 may be pulled up to its inference sample before source j is delivered',
+    'early_stop family: after the terminal consumer stops reading, no further pulls are allowed - except behind an '
+    'observer that owes a complete capture (dump, stream, checkpoint, finalizer, printer: C05), which drains the rest '
+    'without holding it',
 ]
 REQUIRED_COUNTERS = ['delivery_events', 'pull_events']
 BASE = 10 ** 7
@@ -42,6 +45,11 @@ class Null(io.TextIOBase):
 
 STREAMING = sorted(n for n, o in dsl.OPS.items() if o.streaming and n not in dsl.BUFFERING
                    and n not in ('delete_resource', 'append_iterable', 'append_load'))
+
+
+# observers that owe a COMPLETE capture of the stream at their position (C05): when a later step stops reading a resource
+# they finish their capture on their own, so "nothing is pulled after the consumer stopped" does not apply to them
+CAPTURING = ('dump_to_path', 'dump_to_zip', 'stream', 'checkpoint', 'finalizer', 'printer')
 
 
 def gen_cases(tier, seed):
@@ -172,7 +180,7 @@ def run_case(case):
         with boot.quiet():
             d.Flow(*steps).process()
         stats['pulled'] = sum(pulled)
-        if early:
+        if early and case['op'] not in CAPTURING:
             # rows pulled although the consumer had stopped: must stay bounded as well
             stats['max_initial'] = max(stats['max_initial'], pulled[0] - 10)
             stats['max_steady'] = stats['max_initial']
